@@ -110,6 +110,8 @@ JudgeC09(M, ev, F, wt) == IF ev.k = "pfba" THEN JudgePfba(M, ev, F) ELSE JudgeAd
 \* ------------------------------------------------------------------ C06
 \* event = [k ("srd" "sgd" "drd" "dgd" "ess_r" "ess_g"), method ("fba" | "lmoma"), l1, l1given, l2, l2given
 \*          (positions in M.rxns / M.genes), byobj, ref, refgiven, refobj, tdefault, tnum, tden,
+\*          prior (gene positions already non-functional when the call is made), pmode ("none" | "ko" =
+\*          gene.knock_out() | "flag" = functional = False only), pctx (inside an enclosing `with model:`),
 \*          outcome, rows : Seq([ids : Seq(position), gk ("num" | "nan"), growth, status]),
 \*          accessor (BOOLEAN: the `knockout` accessor returns each row for its own id set),
 \*          ess : Seq(position)]
@@ -126,10 +128,12 @@ JudgeDel(M, ev, wt) ==
       \* the reference of the MOMA deletions: given, or pFBA of the model when that is a single point
       pf == IF moma /\ ~ev.refgiven /\ wt.hasopt THEN PfbaPoints(wt.F, M) ELSE {}
       ref == IF ev.refgiven THEN ev.ref ELSE IF Cardinality(pf) = 1 THEN CHOOSE v \in pf : TRUE ELSE <<>>
-      inscope == IsUnitNetwork(M) /\ (moma => (wt.hasopt /\ (ev.refgiven => ev.ref \in wt.argopt)))
+      P == {M.genes[ev.prior[i]] : i \in 1..Len(ev.prior)}
+      inscope == IsUnitNetwork(M) /\ (moma => (wt.hasopt /\ ev.pmode = "none" /\ (ev.refgiven => ev.ref \in wt.argopt)))
+                 /\ InScope_prior(M, P, ev.pmode)
       dec == ~moma \/ (AllFinite(M) /\ ref # <<>>)
       rowfails(row) ==
-        LET e == RowExpect(M, ent, SeqSet(row.ids)) IN
+        LET e == RowExpectP(M, ent, SeqSet(row.ids), P, ev.pmode) IN
         IF ~moma
         THEN Fails("status_optimal_iff_optimum", (row.status = "optimal") = e.hasopt)
              \cup Fails("growth", IF e.hasopt THEN row.gk = "num" /\ Near(row.growth, e.opt * Scale, Tol)
@@ -143,6 +147,8 @@ JudgeDel(M, ev, wt) ==
               \cup (IF ~wt.hasopt THEN {"model_without_optimum"} ELSE {})
               \cup (IF moma /\ ~ev.refgiven THEN {"default_reference"} ELSE {})
               \cup (IF ~AllFinite(M) THEN {"infinite_bounds"} ELSE {})
+              \cup (IF ev.pmode # "none" THEN {"prior_" \o ev.pmode} ELSE {})
+              \cup (IF ev.pmode # "none" /\ ev.pctx THEN {"prior_in_context"} ELSE {})
   IN
   IF ~inscope THEN Res("out", FALSE, {}, {}, <<>>)
   ELSE IF ev.outcome # "ok" THEN Res("in", dec, {"outcome"}, tags, <<>>)
@@ -155,17 +161,23 @@ JudgeDel(M, ev, wt) ==
 
 JudgeEss(M, ev, wt) ==
   LET ent == EntityOf(ev.k)
-      tn == IF ev.tdefault THEN wt.opt ELSE ev.tnum
+      P == {M.genes[ev.prior[i]] : i \in 1..Len(ev.prior)}
+      \* the model state the analysis sees (prior knock-outs applied): its optimum gives the default threshold
+      MP == KnockOut(M, PriorZero(M, P, ev.pmode))
+      FP == IF ev.pmode = "none" THEN wt.F ELSE Feasible(MP)
+      hP == IsUnitNetwork(M) /\ HasOptF(FP, MP)
+      tn == IF ev.tdefault THEN (IF hP THEN OptF(FP, MP) ELSE 0) ELSE ev.tnum
       td == IF ev.tdefault THEN 100 ELSE ev.tden
       \* a threshold that coincides with an attainable growth value would be decided by rounding noise
-      tie == \E x \in Universe(M, ent) : LET e == RowExpect(M, ent, {x}) IN e.hasopt /\ e.opt * td = tn
+      tie == \E x \in Universe(M, ent) : LET e == RowExpectP(M, ent, {x}, P, ev.pmode) IN e.hasopt /\ e.opt * td = tn
   IN
-  IF ~(IsUnitNetwork(M) /\ wt.hasopt) THEN Res("out", FALSE, {}, {}, <<>>)
+  IF ~(hP /\ InScope_prior(M, P, ev.pmode)) THEN Res("out", FALSE, {}, {}, <<>>)
   ELSE IF ev.outcome # "ok" THEN Res("in", TRUE, {"outcome"}, {}, <<>>)
-  ELSE LET exp == Essential(M, ent, tn, td) IN
+  ELSE LET exp == EssentialP(M, ent, tn, td, P, ev.pmode) IN
        Res("in", ~tie, Fails("essential_set", tie \/ SeqSet(ev.ess) = exp),
            (IF M.dir = "min" THEN {"dir_min"} ELSE {}) \cup (IF ev.tdefault THEN {"default_threshold"} ELSE {})
-           \cup (IF ~AllFinite(M) THEN {"infinite_bounds"} ELSE {}), <<exp>>)
+           \cup (IF ~AllFinite(M) THEN {"infinite_bounds"} ELSE {})
+           \cup (IF ev.pmode # "none" THEN {"prior_" \o ev.pmode} ELSE {}), <<exp>>)
 
 JudgeC06(M, ev, wt) == IF ev.k \in {"ess_r", "ess_g"} THEN JudgeEss(M, ev, wt) ELSE JudgeDel(M, ev, wt)
 
@@ -242,7 +254,7 @@ JudgeMinMed(M, ev, F0) ==
 
 \* ------------------------------------------------------------------ C20
 \* event = [k ("model" "met" "rxn"), idx, solgiven, sol, fvak ("none" "frame" "float"), fnum, fden, frame,
-\*          scaled, outcome, plus, minus : Seq([rxn, met, flux, lo, hi, pk ("num" "nan" "none"), pct]),
+\*          scaled, passpfba, stale, c2 (current objective coefficients when the summary is made), outcome, plus, minus : Seq([rxn, met, flux, lo, hi, pk ("num" "nan" "none"), pct]),
 \*          objk, obj, fluxk, flux, lo, hi  (reaction summary / to_frame), rendered, rexc]
 RowsOf(side) == {side[i] : i \in 1..Len(side)}
 JudgeSum(t, ev, wt) ==
@@ -266,6 +278,8 @@ JudgeSum(t, ev, wt) ==
       scope == IsUnitNetwork(t.M) /\ wt.hasopt /\ (fl => (~ev.scaled /\ InScope_pfbaF(F, M, ev.fnum, ev.fden)))
       tags == (IF ~ev.solgiven THEN {"default_solution"} ELSE {}) \cup (IF hasr THEN {"fva_" \o ev.fvak} ELSE {})
               \cup (IF ev.scaled THEN {"non_unit_coefficients"} ELSE {})
+              \cup (IF ev.passpfba THEN {"explicit_pfba_solution"} ELSE {})
+              \cup (IF ev.stale THEN {"objective_changed_after_solution"} ELSE {})
   IN
   IF ~scope THEN Res("out", FALSE, {}, {}, <<>>)
   ELSE IF ev.k = "rxn"
@@ -283,7 +297,10 @@ JudgeSum(t, ev, wt) ==
            \cup Fails("renders", ev.rendered)
            \cup (IF ev.k = "model"
                  THEN Fails("objective_value", ev.objk = "num" /\
-                              Near(ev.obj, (IF known THEN Dot(M.c, sol) ELSE wt.opt) * Scale, FxObjTol(M)))
+                              \* the CURRENT objective (ev.c2 after an objective change) at the summarised fluxes;
+                              \* pFBA solutions (default or passed explicitly) sit at the optimum
+                              Near(ev.obj, (IF known THEN Dot(ev.c2, sol) ELSE wt.opt) * Scale,
+                                   Tol + SumSeq([r \in RIdx(M) |-> Abs(ev.c2[r])])))
                       \cup Fails("metabolite", \A x \in obs : x.rxn \in want => x.met = MetOf(M, x.rxn))
                  ELSE Fails("totals_balance", Near(tot(ev.plus), tot(ev.minus), Tol + 2 * n))
                       \cup Fails("percentages_sum_to_one",
